@@ -268,6 +268,33 @@ func (c *Ctx) checkTempWriter(w *ssa.Function) {
 	}
 }
 
+// handleUsers: the instructions that use the file handle h - directly, or (when the variable holding it is captured by
+// a closure, e.g. a deferred func that closes it, and therefore lives in a cell) through the loads of that cell.
+func handleUsers(h ssa.Value) []ssa.Instruction {
+	var out []ssa.Instruction
+	seen := map[ssa.Value]bool{}
+	var walk func(v ssa.Value, d int)
+	walk = func(v ssa.Value, d int) {
+		if v == nil || seen[v] || d > 4 || v.Referrers() == nil {
+			return
+		}
+		seen[v] = true
+		for _, r := range *v.Referrers() {
+			if st, ok := r.(*ssa.Store); ok && st.Val == v {
+				if cell := cellOf(st.Addr); cell != nil && len(cellStores(cell)) == 1 {
+					for _, ld := range cellLoads(cell) {
+						walk(ld, d+1)
+					}
+					continue
+				}
+			}
+			out = append(out, r)
+		}
+	}
+	walk(h, 0)
+	return out
+}
+
 // ------------------------------------------------------------------ WR2
 
 func ruleWR2(c *Ctx) {
@@ -299,7 +326,7 @@ func ruleWR2(c *Ctx) {
 					if !ok || ex.Index != 0 {
 						continue
 					}
-					for _, u := range *ex.Referrers() {
+					for _, u := range handleUsers(ex) {
 						if call, ok := u.(ssa.CallInstruction); ok && calleeFullName(call.Common()) == "(*os.File).Close" {
 							continue
 						}
@@ -528,7 +555,7 @@ func ruleWR3(c *Ctx) {
 		}
 		var writes []ssa.CallInstruction
 		bad := ""
-		for _, r := range *handle.Referrers() {
+		for _, r := range handleUsers(handle) {
 			call, ok := r.(ssa.CallInstruction)
 			if !ok {
 				if _, isDbg := r.(*ssa.DebugRef); isDbg {
@@ -585,9 +612,11 @@ func ruleWR3(c *Ctx) {
 					if sc, ok := sv.(*ssa.Call); ok && sc == wv {
 						continue
 					}
-					if sc, ok := sv.(*ssa.Call); ok && !canReachInstr(wv, sc) {
+					if sc, ok := sv.(*ssa.Call); ok && sc.Parent() == f && !canReachInstr(wv, sc) {
 						continue // produced before the write (marshal, open)
 					}
+					// (an error assigned to the result by a closure - `defer func() { err = file.Close() }()` - runs on
+					// the way out, after the write)
 					bad = fmt.Sprintf("the return at %s can carry an error produced after the write succeeded (%s)", c.Pos(r.Pos()), c.canon(sv))
 				}
 			}
@@ -601,8 +630,22 @@ func (c *Ctx) retryHelperOK(helper *ssa.Function, call ssa.CallInstruction, hand
 	// which parameter receives the handle
 	idx := -1
 	for i, a := range call.Common().Args {
-		if a == handle {
+		if a == handle || resolve(a) == resolve(handle) {
 			idx = i
+		}
+	}
+	if idx < 0 {
+		// the handle lives in a captured variable: the argument is a load of the cell it was stored into
+		for i, a := range call.Common().Args {
+			if ld, ok := a.(*ssa.UnOp); ok {
+				if cell := cellOf(ld.X); cell != nil {
+					for _, st := range cellStores(cell) {
+						if st.Val == handle {
+							idx = i
+						}
+					}
+				}
+			}
 		}
 	}
 	if idx < 0 || idx >= len(helper.Params) {
